@@ -158,11 +158,18 @@ class Harness:
         if self.symbolic:
             z = z3.Int(name)
             self.inputs[name] = z
-            self.ctx.assume(z3.And(z >= 0, z < len(options)))
-            for i in range(len(options) - 1):
+            allowed = list(range(len(options)))
+            fix = self.params.get("fix", {}).get(name)
+            if fix is not None:
+                # this obligation instance covers only part of the choice (the work is split over processes)
+                allowed = [options.index(v) for v in fix if v in options]
+                if not allowed:
+                    raise PathAbort()
+            self.ctx.assume(z3.Or(*[z == i for i in allowed]))
+            for i in allowed[:-1]:
                 if self.ctx.decide(z == i):
                     return options[i]
-            return options[-1]
+            return options[allowed[-1]]
         i = int(self.model.get(name, 0))
         self.inputs[name] = i
         if not (0 <= i < len(options)):
@@ -259,6 +266,10 @@ class Harness:
         elif r == z3.sat:
             self.results.append((name, "sat", model, note))
         else:
+            if os.environ.get("PVC_DEBUG"):
+                print(f"[pvc] unknown: {name} reason={reason} dt={dt:.1f}s inputs={ {k: None for k in list(self.inputs)[:0]} } trail={c.trail}", flush=True)
+                with open(f"/tmp/pvc_unknown_{name}.smt2", "w") as f:
+                    s2 = z3.Solver(); s2.add(c.solver.assertions()); s2.add(z3.Not(goal)); f.write(s2.to_smt2())
             r2 = _second_opinion(c, goal)
             if r2 == "unsat":
                 self.results.append((name, "discharged", None, "cvc5/alt"))
@@ -411,6 +422,23 @@ class Obligation:
     @property
     def prop(self):
         return self.name.split(".")[0]
+
+
+def split(ob: "Obligation", **axes):
+    """Split one obligation into independent instances, one per combination of the given choice values
+    (each instance runs in its own process; together they cover exactly the original harness)."""
+    import itertools
+    names = list(axes)
+    out = []
+    for combo in itertools.product(*[axes[n] for n in names]):
+        fix = {n: (list(v) if isinstance(v, (list, tuple)) else [v]) for n, v in zip(names, combo)}
+        tag = ",".join(f"{n}={'|'.join(map(str, fix[n]))}" for n in names)
+        params = dict(ob.params)
+        params["fix"] = {**params.get("fix", {}), **fix}
+        out.append(Obligation(name=f"{ob.name}[{tag}]", fn=ob.fn, kind=ob.kind, functions=ob.functions, bound=(ob.bound or "") + f" [{tag}]",
+                              tier=ob.tier, max_paths=ob.max_paths, timeout_ms=ob.timeout_ms, expect=(), params=params, doc=ob.doc,
+                              runner=ob.runner, stubs=ob.stubs, assumptions=ob.assumptions))
+    return out
 
 
 def fn_info(f):
